@@ -6,6 +6,12 @@ ids = [p['id'] for p in props]
 E = 'exploration'; M = 'model_checking'; F = 'fault_enumeration'
 # id: (level, technique, level text, level_note, design_ref)
 checks = {
+ 'C40': (M, 'stateless model checking of the real package under a controlled scheduler: exhaustive enumeration of all schedules up to a preemption bound with happens-before state caching; per-execution linearizability check (porcupine) + liveness',
+         'x/watcher/changes.go is compiled against the virtual runtime (sync.Mutex/Cond -> vsync, the map iteration in Fetch -> explorer-owned choice). Four producer/consumer scenarios; every schedule with <=1 (quick) / <=2 (thorough) preemptions and every Cond.Signal / map-order choice is executed; each history is checked against a set model with porcupine v1.3.0 and for a fetcher asleep with a pending change.',
+         'Scheduling points at synchronisation operations only (sequential consistency); the explorer owns mutex hand-off, cond wake-up choice and map iteration order; scenarios have <=3 producers, <=3 consumers, <=3 directories.', '§2 C40'),
+ 'C41': (M, 'stateless model checking of the real package under a controlled scheduler: exhaustive enumeration of all schedules up to a preemption bound and all select tie-breaks, with happens-before state caching; streammodel oracle per execution',
+         'x/fakenet/conn.go is compiled against the virtual runtime (chan/select/go/sync.Mutex rewritten by engine/rewrite at build time). Four scenarios (2 reads+close+late read, 2 writes+close+late write, read+write+close, two readers+close); every schedule with <=1 (quick) / <=2 (thorough) preemptions is executed and judged: reads form a prefix of the source, the underlying writer sees whole buffers in order incl. every acknowledged write, operations started after Close yield (0, io.EOF), nothing stays blocked.',
+         'vrt follows Go channel semantics (park on FIFO queues, commit by the waker, close wakes all); sequential consistency at synchronisation operations; in/out transports are harness code over vrt primitives.', '§2 C41'),
  'C34': (E, 'bounded-exhaustive enumeration of directories (all subsets up to size 2/3 of an 81-entry universe x contents x 10 configurations) on an in-memory FileSystem against the reference model dirref',
          'Every directory of <=2 (quick) / <=3 (thorough) entries from 8 stems x 10 extensions (+ a sub-directory), every package-clause assignment and 10 ClassKind/Mode/Filter configurations is parsed by the real ParseFSDir and compared with dirref: inclusion, Files vs GoFiles, package grouping, IsClass/IsProj/IsNormalGox, error presence.',
          'dirref is derived from the doc comments and the statement; .gop recognition and gop_autogen-as-prefix are taken from the code (docs silent); all file contents parse.', '§2 C34'),
@@ -71,6 +77,8 @@ m = {
  'hooks': {'guard': 'verif', 'enable': 'checks build /repo through `go build -overlay <generated json>`; overlay files carry //go:build verif semantics by living only in the overlay (nothing is committed to /repo)',
            'baseline_off_cmd': 'cd /repo && go test -mod=mod -vet=off -count=1 -timeout 25m ./...', 'source_commits': [], 'add_only': True},
  'engines': [
+  {'name': 'vrt', 'path': 'engine/vrt/', 'serves_properties': ['C39','C40','C41'], 'kind_free_text': 'virtual runtime + stateless explorer: cooperative scheduler, Go-faithful channels/select, vsync/vatomic/vcontext shims, preemption-bounded DFS over choice sequences, happens-before state caching, schedule record/replay'},
+  {'name': 'rewrite', 'path': 'engine/rewrite/', 'serves_properties': ['C39','C40','C41'], 'kind_free_text': 'go/ast source rewriter producing a `go build -overlay` (chan/select/go/sync/atomic/context -> vrt), regenerated from the working tree on every build'},
   {'name': 'engine', 'path': 'engine/', 'serves_properties': sorted(checks), 'kind_free_text': 'evidence/known-finding/replay plumbing, worker-subprocess pool with crash attribution, enumerators'},
  ],
  'checks': [], 'not_applicable': [],
